@@ -22,9 +22,12 @@ RULE = ('single-operation buckets (each public operation family first, then up t
         'buckets compare every register, reverse buckets the input adjoints.  Non-trivial = P >= 2 with pairwise different zeroth '
         'coefficients in at least one input; distinct by descriptor hash.  fwd:degenerate:* (some directions rank deficient / with repeated '
         'eigenvalues; every case non-trivial), fwd:scales:* (each direction multiplied by its own power of two, ratios up to 2^54; non-trivial = '
-        'scales differ)')
+        'scales differ); fwd:poison:* / rev:poison:* (leak amplifier: orders >= k >= 1 of one direction of every input - and its seed - are NaN or inf, '
+        'base points finite; the other directions must stay finite and unchanged); direct:eigh1+pb_eigh1 (UTPM.eigh1 and its pullback called directly, '
+        'some directions with repeated eigenvalues)')
 ASSUMPTIONS = [
     'relation (1) to 1e-12 relative to max(1, max|coefficients of the register|); relation (2) to the same tolerance (an information leak moves results by far more than 1e-12)',
+    'poison buckets: an exception raised because of the non-finite direction is a declared rejection (loud, not a silent leak)',
     'base points satisfy every operation\'s preconditions with margin at all probe points (by construction)',
 ]
 TOL = 1e-12
